@@ -1,5 +1,84 @@
-(** C09 placeholder; replaced below. *)
-From Yarl Require Import Model.Url.
-Example C09_sanity : nonempty [1%N] = true.
-Proof. reflexivity. Qed.
-Print Assumptions C09_sanity.
+(** C09 - eager and lazy component computation agree; pickling is lossless.
+    Statements only. *)
+From Yarl Require Import Base.PyStr Model.Url Model.Prog Proofs.NetlocProofs Proofs.PickleProofs.
+
+(** pickling stores exactly the five strings: the restored object has the same stored
+    parts and no pre-computed values; an object without pre-computed values is restored
+    identically *)
+Theorem C09_state_lossless : forall u : url,
+  u_scheme (twin u) = u_scheme u /\ u_netloc (twin u) = u_netloc u /\ u_path (twin u) = u_path u
+  /\ u_query (twin u) = u_query u /\ u_fragment (twin u) = u_fragment u /\ u_eager (twin u) = None.
+Proof. exact twin_parts. Qed.
+Print Assumptions C09_state_lossless.
+
+Theorem C09_lazy_objects_identical : forall u : url, u_eager u = None -> twin u = u.
+Proof. exact twin_lazy. Qed.
+Print Assumptions C09_lazy_objects_identical.
+
+(** the restored object always compares equal and has the same hash/ordering key *)
+Theorem C09_twin_equal : forall u : url, url_eqb (twin u) u = true /\ cmp_key (twin u) = cmp_key u.
+Proof. exact twin_eq. Qed.
+Print Assumptions C09_twin_equal.
+
+(** all 36 observed accessors of the restored object return what the original returns,
+    provided the eagerly stored authority parts are what a lazy split derives *)
+Theorem C09_accessors_agree : forall (O : oracles) (B : backend) (u : url) (profile : N),
+  lazy_agrees u -> observe O B profile (twin u) = observe O B profile u.
+Proof. exact twin_observe. Qed.
+Print Assumptions C09_accessors_agree.
+
+(** encode_url stores its authority in the shape make_netloc(raw_user, raw_password,
+    host, port) together with exactly those parts (host[1:-1] for a bracketed host) *)
+Theorem C09_encode_url_shape : forall (O : oracles) (B : backend) s u m,
+  encode_url O B s = Ok u -> u_eager u = Some m ->
+  exists written,
+    u = eager_url B (u_scheme u) (u_path u) (u_query u) (u_fragment u)
+                  (m_user m) (m_password m) written (strip_brackets written) (m_port m)
+    /\ m_host m = Some (strip_brackets written).
+Proof. exact encode_url_shape. Qed.
+Print Assumptions C09_encode_url_shape.
+
+(** eager = lazy for every such authority whose host is non-empty and is either
+    bracket-free without ':' '@' or a bracketed text without ']' '@', whose user and
+    password carry no raw '@' (user: no ':'), and whose port is in range - i.e. everything
+    outside the known-finding classes F7 (empty host) and F17 (brackets lost).
+    PARTIAL: that encode_url's outputs satisfy these side conditions (requoter output has
+    no raw delimiter; encode_host output is bracketed IPv6 or a colon-free name) is
+    validated by the correspondence runs, not proved. *)
+Theorem C09_eager_lazy_partial : forall (B : backend) sc p q f ru rp written hostname pt,
+  host_form written hostname -> hostname <> [] -> ru <> Some [] ->
+  (match pt with Some x => (x <= 65535)%N | None => True end) ->
+  (match ru with Some u => mem 64 u = false /\ mem 58 u = false | None => True end) ->
+  (match rp with Some x => mem 64 x = false | None => True end) ->
+  lazy_agrees (eager_url B sc p q f ru rp written hostname pt).
+Proof. exact eager_agrees. Qed.
+Print Assumptions C09_eager_lazy_partial.
+
+(** the core inversion: split_netloc undoes make_netloc *)
+Theorem C09_split_make_netloc : forall (q : str -> str) user password written hostname port,
+  host_form written hostname ->
+  (match port with Some p => (p <= 65535)%N | None => True end) ->
+  (match user with Some u => mem 64 u = false /\ mem 58 u = false | None => True end) ->
+  (match password with Some p => mem 64 p = false | None => True end) ->
+  split_netloc (make_netloc q user password (Some written) port false)
+  = Ok (norm_user user, password, or_none hostname, port).
+Proof. exact split_make_netloc. Qed.
+Print Assumptions C09_split_make_netloc.
+
+(** the full statement (without the side conditions) is false of the faithful model:
+    known finding F7 - URL("//:77"): eager raw_host "" vs lazy None *)
+Definition no_oracles : oracles :=
+  mk_oracles (fun s => s) (fun _ => None) (fun _ => None) (fun _ => None) (fun _ => None) (fun _ => None) (fun s => s).
+Theorem C09_empty_host_refuted :
+  exists u, encode_url no_oracles BPy [47; 47; 58; 55; 55] = Ok u /\ raw_host (twin u) <> raw_host u.
+Proof. eexists. split; [vm_compute; reflexivity|vm_compute; discriminate]. Qed.
+Print Assumptions C09_empty_host_refuted.
+
+(** non-vacuity: http://u:p@[::1]:81/ satisfies every premise *)
+Example C09_example :
+  host_form [91; 58; 58; 49; 93] [58; 58; 49] /\ [58; 58; 49] <> []
+  /\ lazy_agrees (eager_url BPy [104] [47] [] [] (Some [117]) (Some [112]) [91; 58; 58; 49; 93] [58; 58; 49] (Some 81%N)).
+Proof.
+  split; [apply (HBracket [58; 58; 49]); reflexivity|]. split; [discriminate|]. vm_compute. reflexivity.
+Qed.
+Print Assumptions C09_example.
